@@ -84,6 +84,9 @@ type Bank struct {
 	profID uint64
 }
 
+// WrapBase + 2*k + n: C09's long-run operation on the k-th definition with required fields (see execWrap).
+const WrapBase = uint64(1) << 40
+
 // SysRejected is the first id of the systematic part of C13's bank.
 const SysRejected = uint64(1) << 32
 
@@ -100,6 +103,10 @@ func NewBank(prof string, c *model.Corpus) *Bank {
 	}
 	b.valid = c.Valid()
 	b.rej = c.RejectedDefs()
+	if prof == "C07" || prof == "C08" {
+		// calls that fail with the user's own panic are, for these two, one more kind of failing call in a history
+		b.rej = append(b.rej, c.Panicky()...)
+	}
 	for _, s := range b.valid {
 		if hasRequired(c, s, map[string]bool{}) {
 			b.reqs = append(b.reqs, s)
@@ -349,6 +356,12 @@ func (b *Bank) Op(id uint64) (op OpSpec) {
 			}
 		}
 	case "C09":
+		if id >= WrapBase {
+			k := id - WrapBase
+			op.Kind, op.Type = "wrap", b.reqs[int(k/2)%len(b.reqs)].Name
+			op.Omit = []int{300, 66000}[k%2] // past one period of an 8-bit resp. a 16-bit counter
+			return op
+		}
 		s := b.reqs[r.Intn(len(b.reqs))]
 		if isFocus(id) {
 			s = b.pick(id, r)
@@ -506,6 +519,7 @@ func Derive(prof string, c *model.Corpus, seed uint64, run int, bankLimit uint64
 	rs := &RunSpec{Prof: prof, Corpus: c.Seed, Seed: model.Mix(seed, c.Seed, uint64(run), b.profID), Run: run, Pool: "sim", Tasks: 1}
 	r := model.NewRng(model.Mix(rs.Seed, 0x415))
 	rs.Sched.Strategy = "nonpreemptive"
+	soak := false
 	nops := 20 + r.Intn(60)
 	pickOp := func() uint64 { return uint64(r.Intn(int(b.Size))) }
 	switch prof {
@@ -525,6 +539,13 @@ func Derive(prof string, c *model.Corpus, seed uint64, run int, bankLimit uint64
 	case "C09":
 		rs.Tasks = 1 + r.Intn(2)
 		nops = 40 + r.Intn(80)
+		if r.Chance(1, 8) {
+			// long runs: one task, the pool behaving like the real one does for a single goroutine, and in the middle
+			// of a short history one operation that repeats a rejected message tens of thousands of times - whatever
+			// is counted, stamped or cached per use of a pooled object goes through a full period of small counters
+			soak = true
+			rs.Tasks, rs.Pool, nops = 1, "lifo", 6+r.Intn(10)
+		}
 	case "C13":
 		rs.Tasks = 1 + r.Intn(3)
 		nops = 30 + r.Intn(60)
@@ -547,7 +568,7 @@ func Derive(prof string, c *model.Corpus, seed uint64, run int, bankLimit uint64
 	if rs.Tasks > 1 {
 		pickStrategy(r, &rs.Sched)
 	}
-	if r.Chance(1, 12) && prof != "C08" && prof != "C16" {
+	if r.Chance(1, 12) && prof != "C08" && prof != "C16" && !soak {
 		rs.Pool = "real" // fidelity runs: the runtime's own sync.Pool
 	}
 	switch prof {
@@ -573,6 +594,8 @@ func Derive(prof string, c *model.Corpus, seed uint64, run int, bankLimit uint64
 	for i := 0; i < nops; i++ {
 		st := Step{Slot: i, Task: r.Intn(rs.Tasks)}
 		switch {
+		case soak && (i == nops/2 || i == nops-1):
+			st.Op = WrapBase + uint64(r.Intn(2*len(b.reqs)))
 		case len(recent) > 0 && r.Chance(1, 5):
 			st.Op = recent[r.Intn(len(recent))]
 		case len(focus) > 0 && r.Chance(1, 2):
@@ -715,6 +738,9 @@ func pickStrategy(r *model.Rng, s *SchedSpec) {
 // rounds are pure storms (every task first-uses the same type at step 0).
 func deriveC08(rs *RunSpec, b *Bank, r *model.Rng) {
 	c := b.C
+	if r.Chance(1, 6) && deriveCrowd(rs, b, r) {
+		return
+	}
 	used := map[string]bool{}
 	// index the (possibly limited) bank by type once
 	byType := map[string][]uint64{}
@@ -796,6 +822,51 @@ func deriveC08(rs *RunSpec, b *Bank, r *model.Rng) {
 }
 
 // deriveC16: the same value objects and input buffers are handed read-only to several tasks; several rounds.
+// deriveCrowd: one round in which 70-140 tasks each make one or two calls on a few definitions whose structs nest
+// one another with required fields at several levels, all starting at once under a high switch rate - so that many
+// calls are in flight, each holding what a call holds while it descends (scratch objects per nesting level). Whatever
+// a call takes from a bounded supply and keeps while it waits for more of it shows here and not with eight tasks.
+func deriveCrowd(rs *RunSpec, b *Bank, r *model.Rng) bool {
+	c := b.C
+	var cand []int
+	for i, s := range b.valid {
+		if !hasRequired(c, s, map[string]bool{}) {
+			continue
+		}
+		nested := 0
+		for _, q := range Related(c, s) {
+			if q != s && hasRequired(c, q, map[string]bool{}) {
+				nested++
+			}
+		}
+		if nested >= 1 {
+			cand = append(cand, i)
+		}
+	}
+	if len(cand) == 0 {
+		return false
+	}
+	rs.Tasks = 70 + r.Intn(71)
+	rs.Rounds = 1
+	rs.Sched.Strategy, rs.Sched.Den, rs.Sched.PCTDepth = "uniform", []int{2, 2, 8}[r.Intn(3)], 0
+	rs.Sched.StartAt = make([]int64, rs.Tasks)
+	var pool []uint64
+	for k := 1 + r.Intn(3); k > 0; k-- {
+		idx := cand[r.Intn(len(cand))]
+		for _, v := range []uint64{0, 1, 4, 6, 8, 2} { // the healthy decodes of the definition, and an encode
+			pool = append(pool, FocusBase+uint64(idx)*FocusVariants+v)
+		}
+	}
+	slot := 0
+	for t := 0; t < rs.Tasks; t++ {
+		for i := 1 + r.Intn(2); i > 0; i-- {
+			rs.Hist = append(rs.Hist, Step{Slot: slot, Task: t, Op: pool[r.Intn(len(pool))]})
+			slot++
+		}
+	}
+	return true
+}
+
 func deriveC16(rs *RunSpec, b *Bank, r *model.Rng) {
 	rs.Rounds = 3 + r.Intn(4)
 	rs.Sched.StartAt = make([]int64, rs.Tasks*rs.Rounds)
